@@ -39,7 +39,9 @@ type Case struct {
 func sp(s string) *string { return &s }
 
 var valueWords = []string{"A", "ABC", "Abc", "abc ", " abc", "a", "abc", "x1", "é", "日本", "10", "-1", "p:q", "urn:x", "a.b", ";", "{", "}", "+", "'", "\"", "\\", "/* c */", "// c", "=", "*", "+5", "\\d+", "\\n", "\\t", "C:\\dir", "\\\\", "\t", "\\\"",
-	"\u00a0", "a\u3000b", "\f", "\v", "\u2028", "\u0085", "o'clock", "k='v'"}
+	"\u00a0", "a\u3000b", "\f", "\v", "\u2028", "\u0085", "o'clock", "k='v'",
+	// bytes of an 8-bit encoding (see rawBytes): kept as they are, like any other byte of an argument
+	"caf\ue0e9", "\ue0b5m", "\ue0ff", "Z\ue0e9\ue0e9 x"}
 
 func genValue(g *yg.G) string {
 	if g.Pick(4, "shortval") == 0 {
@@ -307,6 +309,24 @@ func encodeDQ(p string) string {
 }
 
 // build combines the abstract tree with a layout into a renderable statement.
+// rawBytes turns the private-use runes U+E080..U+E0FF of a value into the single bytes 0x80..0xFF: text in an 8-bit
+// encoding (Latin-1 files exist), which is no valid UTF-8.  The values are kept with the runes so that a case survives
+// being written down as JSON.
+func rawBytes(s string) string {
+	if !strings.ContainsRune(s, '\ue0e9') && !strings.ContainsRune(s, '\ue0b5') && !strings.ContainsRune(s, '\ue0ff') {
+		return s
+	}
+	var b []byte
+	for _, r := range s {
+		if r >= 0xe080 && r <= 0xe0ff {
+			b = append(b, byte(r-0xe000))
+		} else {
+			b = append(b, string(r)...)
+		}
+	}
+	return string(b)
+}
+
 func build(a *A, l *L) *yg.Stmt {
 	s := &yg.Stmt{Kw: a.Kw, T0: l.T[0], T1: l.T[1], T2: l.T[2], T3: l.T[3], Block: l.Block, Plus: l.Plus}
 	if a.Val != nil {
@@ -318,11 +338,11 @@ func build(a *A, l *L) *yg.Stmt {
 			}
 			switch {
 			case q == "u" && len(pieces) == 1 && canUnquoted(p):
-				s.Pieces = append(s.Pieces, yg.Piece{Q: "u", Raw: p})
+				s.Pieces = append(s.Pieces, yg.Piece{Q: "u", Raw: rawBytes(p)})
 			case q == "s" && !strings.Contains(p, "'"):
-				s.Pieces = append(s.Pieces, yg.Piece{Q: "s", Raw: p})
+				s.Pieces = append(s.Pieces, yg.Piece{Q: "s", Raw: rawBytes(p)})
 			default:
-				s.Pieces = append(s.Pieces, yg.Piece{Q: "d", Raw: encodeDQ(p)})
+				s.Pieces = append(s.Pieces, yg.Piece{Q: "d", Raw: rawBytes(encodeDQ(p))})
 			}
 		}
 	}
